@@ -1,0 +1,6 @@
+//go:build !verif
+
+package risc
+
+// VerifTick is a no-op unless the simulator is built with the verif tag.
+func (ctx *Context) VerifTick() {}
